@@ -42,6 +42,33 @@ def cell_area2(v):
     return a
 
 
+def _seg_cross(p1, p2, p3, p4):
+    """boolean array: the open segments p1p2 and p3p4 cross properly"""
+    def orient(a, b, c):
+        return (b[0] - a[0]) * (c[1] - a[1]) - (b[1] - a[1]) * (c[0] - a[0])
+    d1, d2 = orient(p3, p4, p1), orient(p3, p4, p2)
+    d3, d4 = orient(p1, p2, p3), orient(p1, p2, p4)
+    return (d1 * d2 < 0) & (d3 * d4 < 0)
+
+
+def cell_defects(v):
+    """(minority orientation, bow-tie cells, torn corners): cells whose signed area has the opposite sign to the majority; cells whose
+    opposite edges cross; corners on which two x-neighbouring cells (contiguous in x in every topology) disagree by more than 1e-6 m"""
+    ll = (v["Rxy_corners"], v["Zxy_corners"])
+    lr = (v["Rxy_lower_right_corners"], v["Zxy_lower_right_corners"])
+    ur = (v["Rxy_upper_right_corners"], v["Zxy_upper_right_corners"])
+    ul = (v["Rxy_upper_left_corners"], v["Zxy_upper_left_corners"])
+    a = cell_area2(v)
+    minority = int(min((a <= 0).sum(), (a >= 0).sum()))
+    with np.errstate(all="ignore"):
+        bow = int((_seg_cross(ll, lr, ur, ul) | _seg_cross(lr, ur, ul, ll)).sum())
+        t1 = np.hypot(lr[0][:-1, :] - ll[0][1:, :], lr[1][:-1, :] - ll[1][1:, :])
+        t2 = np.hypot(ur[0][:-1, :] - ul[0][1:, :], ur[1][:-1, :] - ul[1][1:, :])
+    torn = int((t1 > 1e-6).sum() + (t2 > 1e-6).sum())
+    worst = float(max(np.nanmax(t1), np.nanmax(t2))) if t1.size else 0.0
+    return minority, bow, torn, worst
+
+
 def core_mask(v):
     """(nx, ny) boolean: closed field lines (x < ixseps of the primary separatrix, y inside the core range, boundary cells included in y
     indexing as the file stores them)"""
@@ -115,8 +142,11 @@ def summary(v, has_pressure, has_fpol, tokamak=True, orthogonal=True):
         if k in v and (v[k] == 0).any():
             s["zero"][k] = int((v[k] == 0).sum())
     if all(("Rxy" + c) in v for c in CORNER_SUFFIXES):
-        a = cell_area2(v)
-        s["fold"] = int(min((a <= 0).sum(), (a >= 0).sum()))
+        minority, bow, torn, worst = cell_defects(v)
+        # chord polygons of coarse non-orthogonal cells next to an X-point can have crossing x-edges although the curvilinear cell is not
+        # folded (cdn, 4 poloidal cells per core half): crossing chords are recorded, not judged
+        s["fold"] = minority + torn
+        s["fold_detail"] = {"opposite_orientation": minority, "self_intersecting": bow, "torn_x_corners": torn, "worst_x_corner_gap_m": worst}
     return s
 
 
@@ -138,7 +168,10 @@ def verdict(s, bt_zero):
     for k, n in sorted(s["zero"].items()):
         out.append(("zero:" + k, "%s is 0 at %d points" % (k, n)))
     if s["fold"]:
-        out.append(("folded-cells", "%d cells have the opposite orientation to the rest (folded over)" % s["fold"]))
+        d = s.get("fold_detail", {})
+        out.append(("folded-cells", "%d cells have the opposite orientation to the rest (%d have crossing chord edges), %d corners differ "
+                    "between the two x-neighbouring cells that share them (worst gap %.3g m): cells folded over / torn"
+                    % (d.get("opposite_orientation", s["fold"]), d.get("self_intersecting", 0), d.get("torn_x_corners", 0), d.get("worst_x_corner_gap_m", 0.0))))
     return out
 
 
